@@ -1,7 +1,7 @@
 # One claim(...) per property that has a registered check. Executed by mkmanifest.py.
 
 claim("C07",
-  technique="static typestate analysis: path enumeration over go/ssa of every session entry point with an abstract logon-state set; who-may-call census of send sites and of the timer start function",
+  technique="static typestate analysis: path enumeration over go/ssa of every session entry point with an abstract logon-state set; who-may-call census of send sites and of the timer start function; parse-error path rule shared with C16",
   text="Safety invariant of the library's own send sites, decided for every inbound history at once: on every acyclic SSA path of every entry point of package session "
        "(inbound/outbound handlers, event and AfterFunc callbacks, exported methods, goroutine bodies; same-package callees spliced in) a send of a message kind other than "
        "Logon/Logout/Reject happens only in an abstract state that excludes the two pre-logon states; the timer goroutines are started only behind the approved-logon checks. "
@@ -20,14 +20,14 @@ claim("C06",
   design_ref="DESIGN.md §3 C06, §2 E1")
 
 claim("C14",
-  technique="static path enumeration over go/ssa of the TestRequest handler with operand-flow matching; codec identity check on fix.String",
+  technique="static path enumeration over go/ssa of the TestRequest handler with operand-flow matching; codec identity check on fix.String; forward flow of received queue messages to the socket write (shared with C04)",
   text="On every SSA path of the TestRequest handler with parse ok and the logged-on test true: exactly one send, of kind Heartbeat, synchronous, whose TestReqID operand is TestReqID() of the builder the handler "
        "parsed its own input into; fix.String converts bytes↔string without transformation. A structural necessary condition for the echo; content-dependent mis-location of field 112 by the decoder's substring search is not decided (C18 decides anchoring).",
   note="Trusted: go/ssa; message kind = static builder type; sequential dispatch is C04's rule F5, the decoder's extraction is C18/C02.",
   design_ref="DESIGN.md §3 C14")
 
 claim("C15",
-  technique="static typestate analysis over go/ssa paths of the Logout handler and Stop; registration-liveness (no Clean after Handle on any path, defers replayed); loop-shape check of the event pool",
+  technique="static typestate analysis over go/ssa paths of the Logout handler and Stop; registration-liveness (no Clean after Handle on any path, defers replayed); loop-shape check of the event pool; ordering of state reads and decode on every trace",
   text="Logout handler: state read SuccessfulLogged ⇒ exactly one Logout sent and the final abstract state excludes SuccessfulLogged; state read WaitingLogoutAnswer ⇒ nothing sent and changeState(ReceivedLogoutAnswer, true), "
        "which changeState maps to the logout event. Stop: Logout sent in WaitingLogoutAnswer, AfterFunc(configured CloseTimeout, cancel), logout-event callback that stops that very timer and cancels; the registration is not wiped before Stop returns; "
        "the pool keeps order and stops at false. Timing (answer vs. deadline) is not decided.",
@@ -35,7 +35,7 @@ claim("C15",
   design_ref="DESIGN.md §3 C15")
 
 claim("C16",
-  technique="static path enumeration over go/ssa of the five administrative handlers, classified by parse outcome and by the refined value of the first state read; trace constraints; operand-flow matching in the raw-bytes reject",
+  technique="static path enumeration over go/ssa of the five administrative handlers, classified by parse outcome and by the refined value of the first state read; trace constraints; operand-flow matching in the raw-bytes reject; runs the C03 integrity rules and the probe-state entry rule as premises",
   text="For each administrative handler: parsing is the first event, of the handler's own bytes, into a fresh builder of its own type; every parse-error path and every not-permitted-in-this-state path contains exactly one Reject send, "
        "no state change that alters logged-on-ness, no cancellation, and returns true so dispatch continues; every parse-ok path of Heartbeat/TestRequest/ResendRequest is behind a logged-on test; the raw-bytes reject takes RefSeqNum from "
        "Atoi(ValueByTag(offending bytes, MsgSeqNum tag)) and names that tag when the lookup or the conversion fails. Does not decide that later valid messages are processed normally beyond absence of state change/cancel.",
@@ -43,7 +43,7 @@ claim("C16",
   design_ref="DESIGN.md §3 C16")
 
 claim("C10",
-  technique="static operand-flow and path-condition analysis over go/ssa (resend handler, save handler, gap check), loop-shape check of the store's range lookup",
+  technique="static operand-flow and path-condition analysis over go/ssa (resend handler, save handler, gap check), loop-shape check of the store's range lookup; argument identity of the gap check",
   text="Structural necessary conditions for every outbound history and every requested range: messages are saved under their own MsgSeqNum by the first outgoing handler; the resend handler passes the parsed BeginSeqNo/EndSeqNo "
        "(EndSeqNo = 0 ⇒ the outgoing counter's current value) to the store's outgoing side and hands the returned list unmodified to SendBatch without taking a number or re-stamping a header; the in-memory store returns "
        "exactly messages[from..to] ascending or an error, never a partial list; a gap at logon is requested from last-received+1 with EndSeqNo 0. Byte identity of retransmitted messages beyond 'same stored object, no mutation on the path' is not decided.",
@@ -51,7 +51,7 @@ claim("C10",
   design_ref="DESIGN.md §3 C10")
 
 claim("C19",
-  technique="static dominance / path-condition analysis over go/ssa of the send and dispatch paths; loop-shape checks of the handler pools; constructor trace (first registered outgoing handler)",
+  technique="static dominance / path-condition analysis over go/ssa of the send and dispatch paths; loop-shape checks of the handler pools; constructor trace (first registered outgoing handler); event-pool order rule",
   text="For every set of handlers and every refusal/store-failure pattern: the enqueue in DefaultHandler.send is reached only through the pass edges of the all-types range, the type range and ToBytes, in that order, with the bytes ToBytes returned; "
        "each fail edge returns a non-nil error that Send/SendBatch/Session.send/Session.Send propagate; pools append, snapshot in order, iterate ascending and stop at the first refusal; the session's save handler is the first all-types outgoing handler and is "
        "registered before the constructor returns; inbound dispatch offers each message to the all-types handlers and then to the handlers of its extracted type. What a handler does with the message is the application's.",
@@ -59,7 +59,7 @@ claim("C19",
   design_ref="DESIGN.md §3 C19")
 
 claim("C05",
-  technique="must-held lockset analysis over go/ssa (lock regions), who-may-call census of numbering/send sites, no-spawn check on the send chain, operand-flow matching of the header stamps",
+  technique="must-held lockset analysis over go/ssa (lock regions), who-may-call census of numbering/send sites, no-spawn check on the send chain, operand-flow matching of the header stamps; one-writer-per-connection census (shared with C04)",
   text="The premises of the ordering argument are decided for every schedule: the number is taken, the header stamped and the message enqueued inside one Session.mu region (and one DefaultHandler.mu region below it); there is a single numbering site and a single Router.Send site; "
        "no goroutine is spawned between numbering and the FIFO channel; the bundled counter is an atomic increment-and-return and is never reset or set by the session; the stamps are the number just taken, the session's (mirrored) identifiers and time.Now() in FIX layout on the message that is sent; "
        "the channel has one producer function and one consumer per serve function. The argument from these premises to gap-free, ordered numbering on the wire is manual (DESIGN.md); the refused/unsaved case is C19.",
@@ -67,7 +67,7 @@ claim("C05",
   design_ref="DESIGN.md §3 C05, §2 E2")
 
 claim("C20",
-  technique="lockset (guarded-by) analysis over go/ssa with interprocedural lock inheritance for unexported helpers; atomic-consistency check; completeness census of field stores",
+  technique="lockset (guarded-by) analysis over go/ssa with interprocedural lock inheritance for unexported helpers; atomic-consistency check; completeness census of field stores; copylock rule (no value receiver/parameter/result/whole-struct load of a type holding a sync primitive)",
   text="For all schedules at once: every access to the five guarded fields happens with the guard held on the same object (exclusive for writes), the store's counters are touched only through sync/atomic, and every other struct field of the "
        "library packages that is written outside its constructor is one of six named configuration fields whose premise is checked. A sufficient condition for race freedom on the library's own shared state; memory reached through application callbacks, "
        "custom stores, or message objects shared by the application is not modelled.",
@@ -75,7 +75,7 @@ claim("C20",
   design_ref="DESIGN.md §3 C20, §2 E2")
 
 claim("C08",
-  technique="static wiring analysis over go/ssa: value identity of timer variables across closures, path enumeration of the heartbeat goroutine, canonical rendering of the period arithmetic, shape check of utils.Timer",
+  technique="static wiring analysis over go/ssa: value identity of timer variables across closures, path enumeration of the heartbeat goroutine, canonical rendering of the period arithmetic, shape check of utils.Timer; period arithmetic compared as a linear form over the negotiated interval on interprocedural paths; no settings assignment after the timers were armed (typestate trace)",
   text="Necessary conditions of the heartbeat guarantee, each of which breaks it when broken: the all-types outgoing handler refreshes the very timer the heartbeat goroutine waits on; each iteration of that goroutine waits once, leaves only on session cancellation and otherwise sends exactly one Heartbeat; "
        "the period is time.Second × negotiated HeartBtInt; Timer.Refresh stores time.Now(), TakeTimeout restarts the period, polls every timeout/10 and returns only on expiry or Close. The timing bound N + N/10 + slack itself depends on the scheduler and on blocking inside send and is NOT decided.",
   note="Trusted: go/ssa; time.Ticker/time.Until semantics; that every outbound message passes DefaultHandler.send (C19.H1).",
@@ -90,7 +90,7 @@ claim("C09",
   design_ref="DESIGN.md §3 C09, §2 E10")
 
 claim("C04",
-  technique="static ownership / who-may-call analysis over go/ssa: sole-reader census, loop-carried buffer dataflow (phi edges of the read loop), producer/consumer census of the hand-off channels, no-spawn check of the dispatch path, freshness of per-connection objects",
+  technique="static ownership / who-may-call analysis over go/ssa: sole-reader census, loop-carried buffer dataflow (phi edges of the read loop), producer/consumer census of the hand-off channels, no-spawn check of the dispatch path, freshness of per-connection objects; forward flow of every value received from a byte-message channel to a sink on every path (no dropped message); goroutine-ownership census through shared helpers",
   text="All partitions of the byte stream are covered through one contract: the socket is read only by bufio.Reader.ReadBytes(SOH) on one reader per connection. Decided structurally: bytes read are always appended to a local buffer or the accumulated message is handed off and the buffer re-bound to a fresh allocation; "
        "the hand-off test is a start-anchored comparison with the CheckSum tag; each hand-off channel has one producer and one consumer goroutine; each dequeued message is written with one net.Conn.Write; no goroutine is spawned on the dispatch path; "
        "each accepted socket gets its own Conn, handler and channels. Timing and custom net.Conn implementations are not decided.",
@@ -98,7 +98,7 @@ claim("C04",
   design_ref="DESIGN.md §3 C04, §2 E3/E4")
 
 claim("C13",
-  technique="static blocking-operation discipline over go/ssa: census of channel sends/receives and goroutine bodies, loop-exit classification, deferred-cancel pairing, teardown-reaches-context rules, who-may-call table for StopWithError, lock-order graph over the VTA call graph",
+  technique="static blocking-operation discipline over go/ssa: census of channel sends/receives and goroutine bodies, loop-exit classification, deferred-cancel pairing, teardown-reaches-context rules, who-may-call table for StopWithError, lock-order graph over the VTA call graph; lock pairing on every returning path (acquire/release, deferred unlocks); origin analysis of the context a per-connection goroutine watches (through helper parameters to all call sites)",
   text="Exhaustive over the source of the library packages: every channel send is a select case with the owning context's Done() (two tabled exceptions with checked premises); every loop of every goroutine body has an exit governed by cancellation, a closed channel or an error of a blocking call on a resource the close path closes; "
        "every goroutine of a connection defers the shared cancel first and that cancel closes the socket and every scope a sender can wait on (including the initiator's handler); Run raises the stopped/disconnect event before returning; the timer goroutines test the session context after each wake-up; "
        "the mutex acquisition order is acyclic. Necessary structural conditions for 'nothing stays blocked'; the settling time and the relative timing of cause and in-flight traffic are NOT decided.",
@@ -107,7 +107,7 @@ claim("C13",
 
 claim("C01",
   category="proof",
-  technique="byte-layout inference over go/ssa (a compositional effect/type inference: atoms for leaf producers, constants for literal bytes, linear forms for lengths), per-path comparison of the assembled layout with the length function, dominance and who-may-write checks",
+  technique="byte-layout inference over go/ssa (a compositional effect/type inference: atoms for leaf producers, constants for literal bytes, linear forms for lengths), per-path comparison of the assembled layout with the length function, dominance and who-may-write checks; read-only (effect) analysis of the length function, the assembly and the checksum function over the VTA call graph",
   text="Proof relative to the layout model: for every path of the serializer the inferred layout of Message.prepared is BeginString·SOH·BodyLength·SOH·MsgType·(SOH·non-empty part)*·SOH·10=CHK·SOH; the integer stored into the BodyLength value equals, as a linear form over the atoms' lengths, "
        "the length of the region it must measure, for every consistent combination of emptiness conditions; CHK is the checksum function applied to exactly the emitted prefix, and that function adds every byte once plus one SOH modulo 256 as three zero-padded digits; only Prepare writes the image and ToBytes returns it only after a successful Prepare. "
        "Because atoms are opaque, the statement covers every template, population and value (digit-count and modulo boundaries need no case split). Every obligation must be discharged; none is excepted.",
@@ -115,7 +115,7 @@ claim("C01",
   design_ref="DESIGN.md §3 C01, §2 E5")
 
 claim("C17",
-  technique="static writer/reader table agreement (layout inference of the serializer vs. the item list offered to the parser), codec-pair table check per value type over go/ssa paths, loop-shape (collector) summaries of the leaf producers, storage-ownership checks of the entry accessors",
+  technique="static writer/reader table agreement (layout inference of the serializer vs. the item list offered to the parser), codec-pair table check per value type over go/ssa paths, loop-shape (collector) summaries of the leaf producers, storage-ownership checks of the entry accessors; runs the C02 decoder rules as a premise",
   text="Structural conditions for 'exactly the populated fields reach the wire, once, in template order': the serializer emits the same ordered parts Items() lists; constructors and setters mark values populated and ToBytes is the tabled canonical text (nil when null); "
        "every leaf producer iterates its own slice in index order, skips exactly the elements without bytes, joins with SOH and modifies nothing; a KeyValue emits its own key once; a group emits its count first; accessors hand out the message's own storage. "
        "One recorded finding: the trailer is listed but never emitted (cannot be repaired without failing a pinned test). Not decided: canonical text beyond the codec table.",
@@ -144,7 +144,7 @@ claim("C03",
   design_ref="DESIGN.md §3 C03")
 
 claim("C02",
-  technique="static codec-pair table check, exhaustiveness/type-preservation analysis of the template switches over go/ssa paths, loop-shape and operand-identity checks of the group decoder, linear-form comparison of slice cuts",
+  technique="static codec-pair table check, exhaustiveness/type-preservation analysis of the template switches over go/ssa paths, loop-shape and operand-identity checks of the group decoder, linear-form comparison of slice cuts; no store into the split pieces",
   text="Structural necessary conditions for round-tripping, each of which breaks it when broken: formatter/parser of every value type are an inverse pair (Float keeps and prefers its source bytes); templates are rebuilt with the same kinds and concrete value types at the same positions; "
        "each group entry gets a fresh template created inside the per-entry loop, filled from its own piece and added once, with the number of pieces checked against the parsed count; a value is exactly the bytes after its anchored 'tag=' up to the next delimiter; splitGroup partitions its input; item loops visit every item. "
        "Equality of parsed with original values over all inputs, and which of several well-anchored occurrences is found, are NOT decided.",
@@ -153,7 +153,7 @@ claim("C02",
 
 claim("C12",
   category="translation_validation",
-  technique="static schema-to-package validation (the XML schemas read as data vs. the shipped package as typed syntax, declaration by declaration) plus generator lints over go/ssa and the parsed text templates (template-field existence, accessor index agreement, index lock-step, map-order taint table, duplicate rejection, type-table agreement)",
+  technique="static schema-to-package validation (the XML schemas read as data vs. the shipped package as typed syntax, declaration by declaration) plus generator lints over go/ssa and the parsed text templates (template-field existence, accessor index agreement, index lock-step, map-order taint table, duplicate rejection, type-table agreement); interprocedural backward slice of the output path (directory untransformed), package-level-state and single-derivation lints",
   text="The shipped reference package is validated against an oracle derived from the XML alone: constants, member order and value types of every message/component/header/trailer/group, accessor positions and Go types, populating constructors, pipeline wrappers, and the converse (no constant without a schema origin). "
        "For every schema, necessary conditions on the generator source are decided: template fields exist, getter and setter share index/name/type, the accessor index tracks the constructor position on every path, required ⇔ constructor argument + setter call, groups of any depth are collected, no map order reaches the output, "
        "the package name is the output directory's base name, duplicates are rejected before any write, the type table agrees with package fix. One recorded finding (one type per group name: NoMDEntries). NOT decided: that an arbitrary accepted schema yields a compiling package, and that the shipped package is what the generator emits — both need running the generator.",
